@@ -126,6 +126,30 @@ Section Fmt.
     end.
 End Fmt.
 
+(* canonical form of a value: map entries sorted by key at every depth *)
+Fixpoint canon (v : value) : value :=
+  match v with
+  | VArr l => VArr (map canon l)
+  | VMap m => VMap (ksort (map (fun e : key * value => (fst e, canon (snd e))) m))
+  | _ => v
+  end.
+
+(* the value of a decimal numeral, by Horner's rule (independent of `dec`) *)
+Definition digit_val (c : N) : option Z :=
+  if (48 <=? c)%N && (c <=? 57)%N then Some (Z.of_N c - 48) else None.
+Fixpoint horner (acc : Z) (s : str) : option Z :=
+  match s with
+  | [] => Some acc
+  | c :: t => match digit_val c with Some d => horner (10 * acc + d) t | None => None end
+  end.
+Definition parse_dec (s : str) : option Z :=
+  match s with
+  | [] => None
+  | 45%N :: [] => None
+  | 45%N :: t => option_map Z.opp (horner 0 t)
+  | _ => horner 0 s
+  end.
+
 (* oracle tables supplied with a correspondence case: association lists, the default being the
    empty text (a missing entry then shows up as a mismatch) *)
 Fixpoint assoc_str (t : list (str * str)) (s : str) : str :=
